@@ -2,7 +2,8 @@
    the randomised alternating iteration is NOT a theorem (partial, see DESIGN.md); it is measured by the check.
    Only theorem statements closed by `exact`, each followed by Print Assumptions. *)
 From Coq Require Import List Arith.
-From TT Require Import RingSig SumN Mat Core OrdRing RankChop RankChopP Skel SkelP FrobP OrthP GaugeP.
+From Coq Require Import ZArith Lia.
+From TT Require Import RingSig Instances SumN Mat Core OrdRing RankChop RankChopP Skel SkelP FrobP OrthP GaugeP MatOps Reduce Local LocalP StationaryP.
 Import ListNotations.
 Section C11.
 Context {T : Type} {OO : OrdOps T} {OL : OrdLaws T}.
@@ -41,8 +42,59 @@ Theorem C11_centre_core_error (pre post : tt R) (c c' : core3 R) :
 Proof. exact (centre_core_error pre post c c'). Qed.
 End Gauge.
 
+(* ---- the local step of the AMEn products (Model/Local.v; `_local_AB`, `_compute_phi_fwd_AB`, `_compute_phi_bck_AB` of torchtt/_amen.py are tied to it
+   exactly on integer data for the matrix-vector case).  (1) The core the step assigns is the projection of the DENSE product A x on the frame of the
+   current approximation y: entry (l,m,L) = < F_y e_(l,m,L), A x >, any order / position / mode sizes / ranks.  (2) In the mixed orthogonal gauge the
+   sweeps maintain this projection is orthogonal, and if the exact product is representable on the frame (A x = ypre ++ c :: ypost entry by entry)
+   the step returns exactly the core c: once the ranks suffice, a sweep reproduces the exact product. ---- *)
+Section AmenLocal.
+Context {R : Type} {RO : RingOps R} {RL : RingLaws R}.
+Theorem C11_amen_local_update (ypre ypost xpre xpost : tt R) (Apre Apost : ttm R) (ck : core4 R) (xk : core3 R) ra rb l m L :
+  length Apre = length ypre -> length xpre = length ypre -> length Apost = length ypost -> length xpost = length ypost ->
+  l < ra -> L < rb -> m < mm ck -> Core.nn xk = nm ck ->
+  wf (ypre ++ unit3 ra (mm ck) rb l m L :: ypost) -> wf4 (Apre ++ ck :: Apost) -> wf (xpre ++ xk :: xpost) ->
+  e3 (local_product (phiF ypre Apre xpre ones3) ck (phiB ypost Apost xpost) xk) l m L
+  = sum_idx (shapeM (Apre ++ ck :: Apost)) (fun is_ => sum_idx (shapeN (Apre ++ ck :: Apost)) (fun js =>
+      rmul (rmul (rconj (entry (ypre ++ unit3 ra (mm ck) rb l m L :: ypost) is_)) (entry4 (Apre ++ ck :: Apost) is_ js)) (entry (xpre ++ xk :: xpost) js))).
+Proof. exact (local_product_galerkin ypre ypost xpre xpost Apre Apost ck xk ra rb l m L). Qed.
+Theorem C11_amen_update_exact (ypre ypost xpre xpost : tt R) (Apre Apost : ttm R) (ck : core4 R) (xk c : core3 R) l m L :
+  length Apre = length ypre -> length xpre = length ypre -> length Apost = length ypost -> length xpost = length ypost ->
+  l < r0 c -> L < r1 c -> m < Core.nn c -> Core.nn xk = nm ck -> Core.nn c = mm ck ->
+  shape (ypre ++ c :: ypost) = shapeM (Apre ++ ck :: Apost) ->
+  wf (ypre ++ c :: ypost) -> wf4 (Apre ++ ck :: Apost) -> wf (xpre ++ xk :: xpost) ->
+  Forall left_orth ypre -> Forall right_orth ypost ->
+  (forall is_, length is_ = length (shapeM (Apre ++ ck :: Apost)) -> Forall2 lt is_ (shapeM (Apre ++ ck :: Apost)) ->
+     sum_idx (shapeN (Apre ++ ck :: Apost)) (fun js => rmul (entry4 (Apre ++ ck :: Apost) is_ js) (entry (xpre ++ xk :: xpost) js)) = entry (ypre ++ c :: ypost) is_) ->
+  e3 (local_product (phiF ypre Apre xpre ones3) ck (phiB ypost Apost xpost) xk) l m L = e3 c l m L.
+Proof. exact (amen_update_exact ypre ypost xpre xpost Apre Apost ck xk c l m L). Qed.
+End AmenLocal.
+
+(* the hypotheses of C11_amen_update_exact are satisfiable: y = x = [Q; c] with Q the 1 x 2 x 2 core whose slices are the rows of the identity
+   (a left-orthogonal core), c = [[3],[5]; [-2],[7]], A the identity operator *)
+Example C11_amen_update_exact_instance :
+  let Q := mk3 1 2 2 (fun _ i q => if Nat.eqb i q then 1%Z else 0%Z) in
+  let c := mk3 2 2 1 (fun p i _ => nth (p * 2 + i) [3; 5; -2; 7]%Z 0%Z) in
+  let I2 := eye_core (R:=Z) 2 in
+  Forall left_orth [Q] /\ wf ([Q] ++ c :: []) /\ wf4 ([I2] ++ I2 :: []) /\
+  (forall is_, length is_ = 2 -> Forall2 lt is_ [2; 2] ->
+     sum_idx [2; 2] (fun js => rmul (entry4 [I2; I2] is_ js) (entry [Q; c] js)) = entry [Q; c] is_) /\
+  map (fun lm => e3 (local_product (phiF [Q] [I2] [Q] ones3) I2 (phiB [] [] []) c) (fst lm) (snd lm) 0) [(0,0); (0,1); (1,0); (1,1)] = [3; 5; -2; 7]%Z.
+Proof.
+  cbv zeta. split; [|split; [|split; [|split]]].
+  - constructor; [|constructor]. intros p q Hp Hq. cbn [r1 nn r0] in *.
+    destruct p as [|[|p]]; destruct q as [|[|q]]; try lia; vm_compute; reflexivity.
+  - split; [discriminate|]. cbn. auto.
+  - split; [discriminate|]. cbn. auto.
+  - intros is_ Hl HF. destruct is_ as [|i [|j [|? ?]]]; try discriminate.
+    inversion HF as [|? ? ? ? Hi HF']; subst. inversion HF' as [|? ? ? ? Hj _]; subst.
+    destruct i as [|[|i]]; destruct j as [|[|j]]; try lia; vm_compute; reflexivity.
+  - vm_compute. reflexivity.
+Qed.
+
 Print Assumptions C11_dmrg_last_allowance.
 Print Assumptions C11_dmrg_bond_rank_le.
 Print Assumptions C11_sweep_budget.
 Print Assumptions C11_norm2_centre_core.
 Print Assumptions C11_centre_core_error.
+Print Assumptions C11_amen_local_update.
+Print Assumptions C11_amen_update_exact.
